@@ -133,8 +133,12 @@ def run_c15_step(ck, tier, K=2):
 
                 def on_w(m, where, s=s, cmd=cmd, j=j):
                     return replay_usage(ck, m, st, inp, cmd, j, s)
-                ck.obligation(f'{cmd}: accounted usage = total size of the stored records', pcx,
-                              P['usage'] == total_size(P['present'], P['val'], K), R, on_w, small)
+                tot1 = total_size(P['present'], P['val'], K)
+                # the known accounting defects all make the counter too HIGH (or wrap it on the empty-store reset);
+                # a counter that falls BELOW the stored total is a different defect and has no known region
+                Rlow = {k: v for k, v in R.items() if k == 'reset-on-empty-store'}
+                ck.obligation(f'{cmd}: accounted usage never falls below the stored total', pcx, z3.UGE(P['usage'], tot1), Rlow, on_w, small)
+                ck.obligation(f'{cmd}: accounted usage never exceeds the stored total', pcx, z3.ULE(P['usage'], tot1), R, on_w, small)
                 ck.cover(f'{cmd}:{s.rkind}', True)
                 ck.sample({'cmd': cmd, 'result': s.rkind, 'evicted': evicted_keys(s), 'steps': [e[0] for e in s.events if e[0].startswith(('map.', 'atomic.'))][:12]})
                 if nrep < (20 if tier == 'quick' else 10 ** 6):
